@@ -388,7 +388,7 @@ pub fn run(tier: Tier, _replay: Option<String>) -> i32 {
         "open-loop exploration of the real DualAverage/Adam/Strategy::init: all acceptance sequences over {0,0.2,0.5,0.8,0.95,1} up to length L (default parameters, with all single-entry raises), parameter product 3^6 x sequences up to length 3, constant runs of length 2000, Adam sequences, initial search on Gaussian scales 1e-4..1e4 x initial steps x targets. states = sequence prefixes visited, transitions = updates compared with the reference recurrence; distinct = outcome classes",
     );
     report.assume("closed-loop clause ('post-warmup mean acceptance is close to target_accept') is statistical and not decided here");
-    let l_default = tier.pick(6, 7);
+    let l_default = tier.pick(6, 9);
     let default = DaParams { target: 0.8, k: 0.75, t0: 10.0, gamma: 0.05, max_step: std::f64::consts::PI, initial: 0.1 };
 
     // jobs: split the default-parameter exploration by the first two symbols
@@ -420,7 +420,7 @@ pub fn run(tier: Tier, _replay: Option<String>) -> i32 {
                     for m in vals_max {
                         for i in vals_init {
                             let pr = DaParams { target: t, k, t0, gamma: g, max_step: m, initial: i };
-                            jobs.push(Job::DaParams(pr, tier.pick(3, 4)));
+                            jobs.push(Job::DaParams(pr, tier.pick(3, 6)));
                             jobs.push(Job::Constant(pr, 0.0));
                             jobs.push(Job::Constant(pr, 1.0));
                         }
@@ -434,7 +434,7 @@ pub fn run(tier: Tier, _replay: Option<String>) -> i32 {
             for init in [1e-3, 0.1, 10.0] {
                 for target in [0.6, 0.8] {
                     let o = AdamOptions { beta1: b1, beta2: 0.999, epsilon: 1e-8, learning_rate: lr };
-                    jobs.push(Job::Adam(o, init, target, tier.pick(5, 6)));
+                    jobs.push(Job::Adam(o, init, target, tier.pick(5, 8)));
                 }
             }
         }
